@@ -76,6 +76,55 @@ class C04(PropertyCheck):
     digest_opts = {"with_mem": False}      # the memory figure is C19's (in-place SADD/ZADD are not accounted)
     UNORDERED = PropertyCheck.UNORDERED | {"HGETALL"}
 
+    def run(self):
+        """own streams (sampler passes inserted between commands), then the sampler running *against* commands: the schedule
+        controller of C05 (harness/sched) parks a sampler pass at its yield point and interleaves it with a command in every
+        order; replies and live dataset must be those of some serial order (a pass that runs alone is unobservable, which is
+        what the streams above establish) — reported under this property"""
+        rc = PropertyCheck.run(self)
+        return 1 if (self.sampler_against_commands() or rc) else 0
+
+    def sampler_against_commands(self):
+        import C05 as c05
+        chk = c05.C05(self.tier, self.seed)
+        cmds = [["SET", "e", "new"], ["MSET", "e", "1", "s", "2"], ["INCR", "e"], ["APPEND", "e", "x"], ["GET", "e"], ["DEL", "e"],
+                ["LPUSH", "e", "q"], ["RENAME", "e", "s"], ["EXPIRE", "v", "100"], ["PERSIST", "v"], ["SET", "v", "w"], ["APPEND", "v", "+"],
+                ["GETDEL", "v"], ["MGET", "e", "v"]]
+        jobs = [c05.Job("c04s%d" % i, [("cmd", a), ("sweep", 0)]) for i, a in enumerate(cmds)]
+        jobs += [c05.Job("c04t%d" % i, [("cmd", a), ("cmd", b), ("sweep", 0)], {"max": 120})
+                 for i, (a, b) in enumerate([(cmds[0], cmds[4]), (cmds[2], cmds[8]), (cmds[1], cmds[9]), (cmds[5], cmds[0])])]
+        impl, model, findings, stats = chk.evaluate_jobs(jobs)
+        n = 0
+        for f in findings:
+            if f.get("weak") or n >= 4: continue
+            concrete = f["kind"] in ("nonserial", "hung")
+            rep = {"property": "C04", "kind": "sampler pass interleaved with a command: " + f["kind"], "what": f["what"], "job": f["job"].to_json(), "seed": self.seed}
+            for key in ("sched", "impl", "serial", "model", "line"):
+                if key in f: rep[key] = f[key]
+            if not concrete: rep["no_longer_checks"] = "corr:C04:sampler-schedule"
+            path = write_replay("C04", "S_%s%d" % (f["kind"], n), rep)
+            print("VIOLATION property=C04 replay=%s%s" % (path, "" if concrete else " no-failing-input-found"))
+            n += 1
+        try:
+            ev = os.path.join(VERIF, "evidence", "C04.json")
+            main = json.load(open(ev))
+            main["coverage"]["sampler_against_commands"] = dict(stats, jobs=len(jobs), findings=n,
+                rule="every interleaving of one sampler pass (parked at its yield point) with one or two commands on an expired and a volatile key: replies and live dataset equal those of a serial order, and those of the extracted concurrent model (mode conc) schedule by schedule")
+            main["coverage"]["evaluations"] = main["coverage"].get("evaluations", 0) + stats.get("schedules", 0)
+            main["violations"] = main.get("violations", 0) + n
+            json.dump(main, open(ev, "w"), indent=1, sort_keys=True)
+        except Exception:
+            pass
+        log("C04 sampler-against-commands part: %d jobs, %d schedules, %d findings" % (len(jobs), stats.get("schedules", 0), n))
+        return n
+
+    @classmethod
+    def replay_file(cls, path):
+        if os.path.basename(path).startswith("C04_S_"):
+            import C05 as c05
+            return c05.C05.replay_file(path)
+        return None      # the framework's own replay
+
     def reply_opts(self, argv):
         w = str(argv[0]).upper() if argv else ""
         if w == "HGETALL": return {"unordered": True, "pairs": True}
